@@ -613,7 +613,7 @@ def e2e_eval(obs):
             for info in s.done_info:
                 if not info['future_done']:
                     viol.append(V(f'{x.label}: future.done() False inside on_done', sym='on_done-not-done', cls='e2e'))
-        v1 = oracles.first_outcome_oracle(obs, x)
+        v1 = oracles.first_outcome_oracle(obs, x) + oracles.stable_outcome_oracle(obs, x)
         for v in v1:
             v['mech']['cls'] = 'e2e'
         viol += v1
